@@ -206,7 +206,10 @@ fn run_case(rep: &mut Report, case: u64) {
     let nk = every_driver().len() as u64;
     let nops = OPS.len() as u64;
     let kind_ix = (case % nk) as usize;
-    let op = ((case / nk) % nops) as usize;
+    let mut op = ((case / nk) % nops) as usize;
+    if let Some(only) = cfg.extra.get("only_op") {
+        op = OPS.iter().position(|o| o == only).expect("only_op names an operation");
+    }
     let kslot = (case / (nk * nops)) % 8; // 0..5 => k = 1..6, 6 => middle, 7 => last
     let mut pool = every_driver();
     let primary = pool.remove(kind_ix);
@@ -231,7 +234,13 @@ fn run_case(rep: &mut Report, case: u64) {
         hist: Vec::new(),
         rng: rng.clone(),
         payload: 0x900,
-        tag: if cfg.prop == "C08" { "C08" } else { "C19" },
+        tag: if cfg.prop == "C08" {
+            "C08"
+        } else if cfg.prop == "C16" {
+            "C16"
+        } else {
+            "C19"
+        },
     };
     for k in 0..st.drivers.len() {
         for e in &ents {
